@@ -31,6 +31,8 @@ pub(super) async fn call_deploy_tool(
             };
 
             let now = Instant::now();
+            #[cfg(agentpack_verif)]
+            let now = crate::verif_hooks::skew(now);
             {
                 let mut store = server
                     .confirm_tokens
